@@ -176,6 +176,7 @@ def build(run):
     run.kani(crate10, [lemma10], timeout=300)
     crate11, lemma11 = navbraille_lemma(run)
     run.kani(crate11, [lemma11], timeout=600)
+    separator_lemma(run)
     crate8, lemma8 = marker_lemma(run)
     run.kani(crate8, [lemma8], timeout=600)
     crate7, lemma7 = attach_lemma(run)
@@ -328,6 +329,47 @@ def marker_lemma(run):
                        role=lambda v, o: "non-numeric-marker-attribute-unwrap",
                        covers=["non-numeric marker value reachable", "numeric marker value reachable"],
                        claim="no value of the marker attribute makes the two readers panic")
+
+
+# ======================================================================================================================
+# Z-C08-n: the regexes CanonicalizeContextPatterns::new builds from the separator PREFERENCES and unwraps: every value the API accepts
+#          for BlockSeparators / DecimalSeparators must give a pattern the regex crate compiles
+def separator_lemma(run):
+    import re
+    from checks import C16
+    import rxsmt
+    from smt_run import smt_str
+    c = slicer.Source.get("src/canonicalize.rs")
+    new_fn = c.find("impl CanonicalizeContextPatterns", "fn new")
+    run.uses(new_fn)
+    pats = C16.extract_patterns(new_fn)
+    unwrapped = len(re.findall(r"Regex::new\(&format!\(", new_fn.text)) == len(re.findall(r"Regex::new\(&format!\([^;]*?\)\s*\)\s*\.unwrap\(\)", new_fn.text, re.S))
+    run.bound("Z-C08-n", "the character-class templates of CanonicalizeContextPatterns::new with the hole regex::escape(preference value), every preference string (unbounded length)")
+    run.assume("Z-C08-n: set_preference stores any string for the string preferences BlockSeparators / DecimalSeparators (K-C12-a); regex::escape makes every character of the value a literal, so a class `[` + escape(v) + `]` fails to compile exactly when it is empty")
+    for pref, pname in (("BlockSeparators", "block_separator"), ("DecimalSeparators", "decimal_separator")):
+        fmt = pats[pname][0]
+        lid = "Z-C08-n.separator_patterns_compile." + pname
+        if not unwrapped or "[{}]" not in fmt:
+            run.queries += 1
+            run.holds(lid, note="(the pattern %r is no longer an unwrapped bare character class around the preference value)" % fmt)
+            continue
+
+        def w(m, pref=pref, fmt=fmt):
+            v = m["v"]
+            pat = C16.rust_format(fmt, [rxsmt.escape_real(v)] * fmt.count("{}"))
+            if rxsmt.rxcheck([("M", [pat, "x"])])[0] is not None:      # the real regex crate compiles the pattern: no witness
+                return None
+            other = "DecimalSeparators" if pref == "BlockSeparators" else "BlockSeparators"
+            res = mcprobe([("pref", "DecimalSeparator Custom"), ("pref", pref + " " + v), ("mathml", "<math><mn>1</mn></math>"), ("pref", pref + (" ." if pref == "DecimalSeparators" else " ,")), ("mathml", "<math><mn>1</mn></math>")])
+            if not any(r[0] in ("PANIC", "ABORT") for r in res):
+                return None
+            return ("empty-separator-preference", "set_preference(%s, %r) is accepted; CanonicalizeContextPatterns::new then builds the pattern %r and unwraps the compile error: every following set_mathml panics" % (pref, v, pat), {"pattern": pat, "api": res[1:3]})
+        # a guard in front of the format! calls that replaces an empty value (`let x_pref = if x_pref.is_empty() { "lit" } else { x_pref };`) narrows what reaches the class
+        param = {"block_separator": "block_separator_pref", "decimal_separator": "decimal_separator_pref"}[pname]
+        mg = re.search(r"let\s+%s\s*=\s*if\s+%s\.is_empty\(\)\s*\{\s*(\"(?:[^\"\\]|\\.)*\")\s*\}\s*else\s*\{\s*%s\s*\}\s*;" % (param, param, param), new_fn.text)
+        reach = "(ite (= v %s) %s v)" % (smt_str(""), smt_str(slicer.unquote(mg.group(1)))) if mg else "v"
+        run.smt(lid, "(declare-const v String)\n(assert (= (str.len %s) 0))" % reach, get=("v",), witness=w,
+                claim="no accepted value of %s makes the character class of %s empty" % (pref, pname))
 
 
 # ======================================================================================================================
